@@ -56,16 +56,20 @@ def compare(ref, other, name, fam, res, extra, variant_series=None):
     av, bv = a.loc[common].to_numpy(dtype=float), b.loc[common].to_numpy(dtype=float)
     both = np.isfinite(av) & np.isfinite(bv)
     res["evaluations"] += 1
-    if (len(common) != len(a.index) or len(common) != len(b.index)) and fam == "daily" and variant_series is not None and len(variant_series):
+    if (len(common) != len(a.index) or len(common) != len(b.index)) and fam in ("daily", "billing") and variant_series is not None and len(variant_series):
         vs = variant_series
         if pd.isna(vs.iloc[0]) or pd.isna(vs.iloc[-1]):
+            # C05-F1: the span is trimmed to the valid usage; rows can only be lost in one block at the start and / or the end
             extra_rows = a.index.symmetric_difference(b.index)
-            edges = set(list(a.index[:1]) + list(a.index[-2:]))
-            if len(extra_rows) <= 2 and set(extra_rows) <= edges:
+            inner_lo, inner_hi = (common.min(), common.max()) if len(common) else (None, None)
+            at_edges = len(common) > 0 and all((x < inner_lo) or (x > inner_hi) for x in extra_rows)
+            limit = 2 if fam == "daily" else 80          # billing: up to one (bi-monthly) period and its final day
+            if at_edges and len(extra_rows) <= limit:
                 d = res["finding_instances"].setdefault("C05-F1", dict(count=0, example=None))
                 d["count"] += 1
                 if d["example"] is None:
-                    d["example"] = dict(family=fam, variant=name, rows_ref=len(a), rows_variant=len(b), rows_only_in_one=[str(x) for x in extra_rows], **extra)
+                    d["example"] = dict(family=fam, variant=name, rows_ref=len(a), rows_variant=len(b),
+                                        rows_only_in_one=[str(x) for x in list(extra_rows)[:4]], **extra)
                 return
     if len(common) != len(a.index) or len(common) != len(b.index):
         res["oracle_failures"].append(dict(clause="prediction_rows_depend_on_observed", family=fam, variant=name, rows_ref=len(a), rows_variant=len(b), **extra))
@@ -160,7 +164,8 @@ def run(ctx):
             meter.iloc[-1] = np.nan
             bm = BillingModel.from_dict(shaped_doc(combo, bsettings))
             bouts = {}
-            for name, v in variants(meter.iloc[:-1], rng).items():
+            bvariants = variants(meter.iloc[:-1], rng)
+            for name, v in bvariants.items():
                 try:
                     vv = None if v is None else pd.concat([v, meter.iloc[-1:]])
                     rd = BillingReportingData.from_series(vv, temp.copy(), is_electricity_data=True)
@@ -169,7 +174,7 @@ def run(ctx):
                     res["hist"][f"billing_variant_failed:{name}:{type(e).__name__}"] = res["hist"].get(f"billing_variant_failed:{name}:{type(e).__name__}", 0) + 1
             for name, o in bouts.items():
                 if name != "as_metered" and "as_metered" in bouts:
-                    compare(bouts["as_metered"], o, name, "billing", res, dict(start=start, days=days))
+                    compare(bouts["as_metered"], o, name, "billing", res, dict(start=start, days=days), variant_series=bvariants.get(name))
                 sigs.add(("billing", name))
 
     # ---- hourly (fitted on a full synthetic year: every month and weekday covered); the second model is fitted on an
